@@ -127,6 +127,19 @@ def check_g1(chk, cfg):
                 for r in (0, ml - 1):
                     bl = D * ml + r
                     envi = {("arg", 2): bl, ("arg", 3): ml}
+                    envw = {("arg", 1): bl, ("arg", 2): ml}
+                    try:
+                        for path, off, size, mt in leaves:
+                            if path in ("queue_len", "num_free") and off in vw:
+                                got = eval_concrete(vw[off][0], envw) & ((1 << (8 * size)) - 1)
+                                if got != D:
+                                    chk.ob("G1.depth", "messageq_t.%s%s" % (path, tag), False,
+                                           "with base_len=%d msg_len=%d (%d whole messages%s) MESSAGEQ_VAR_INIT sets %s = %d: a slot that "
+                                           "extends beyond the pool is handed out" %
+                                           (bl, ml, D, " and %d spare bytes" % r if r else "", path, got), "include/librfn/messageq.h", "MESSAGEQ_VAR_INIT")
+                                    return
+                    except NoValue:
+                        pass
                     try:
                         sel = [p for p in pi if all(cond_holds(cd, envi) for cd in p.conds)]
                         if len(sel) != 1:
